@@ -221,8 +221,18 @@ def run(case):
                           "simple output holds an unterminated partial line for the failed gene",
                           text=text[:200], **desc)
     elif sit == "pseudogene_only":
-        ok = bool(sols) and all(len(s.solution) == 0 for s in sols) and \
-            all(s.get_major_diplotype().replace(" ", "") == f"*{dele}/*{dele}" for s in sols)
+        # the whole-gene deletion must be reported; further tied solutions may only use structures that leave no
+        # gene copy in any region the structure model looks at (a database may define a partial deletion that
+        # the model cannot tell from the whole-gene one)
+        def gene_free(s):
+            for cfg, n in s.major_solution.cn_solution.solution.items():
+                cn0 = g.cn_configs[cfg].cn[0]
+                if any(cn0.get(r, 0) > 0 for r in g.unique_regions):
+                    return False
+            return True
+
+        ok = bool(sols) and all(gene_free(s) for s in sols) and \
+            any(len(s.solution) == 0 and s.get_major_diplotype().replace(" ", "") == f"*{dele}/*{dele}" for s in sols)
         res.check("pseudogene_only_is_deletion", ok,
                   "a sample whose reads cover only the pseudogene is not called as whole-gene deletion",
                   called=[s.get_major_diplotype() for s in sols], error=repr(err), **desc)
